@@ -51,11 +51,19 @@ class Ctx:
     files: set = field(default_factory=set)
 
     # ------------------------------------------------------------------
+    def _add(self, o: Obligation):
+        k = (o.rule, o.site, o.construct, o.status)
+        seen = self.__dict__.setdefault("_seen", set())
+        if k in seen:
+            return
+        seen.add(k)
+        self.obligations.append(o)
+
     def ok(self, rule: str, site: str, construct: str, found: str = "", required: str = "", nontrivial: bool = True):
-        self.obligations.append(Obligation(rule, site, construct, "discharged", found, required, nontrivial))
+        self._add(Obligation(rule, site, construct, "discharged", found, required, nontrivial))
 
     def bad(self, rule: str, site: str, construct: str, found: str = "", required: str = ""):
-        self.obligations.append(Obligation(rule, site, construct, "violated", found, required))
+        self._add(Obligation(rule, site, construct, "violated", found, required))
 
     def check(self, cond: bool, rule: str, site: str, construct: str, found: str = "", required: str = "",
               nontrivial: bool = True) -> bool:
